@@ -117,8 +117,15 @@ impl Function for EncodeProto {
         let os_string: OsString = desc_file_str.into_owned().into();
         let path_buf = PathBuf::from(os_string);
         let path = Path::new(&path_buf);
-        let descriptor =
-            get_message_descriptor(path, &message_type_str).expect("message type not found");
+        // a missing/unreadable descriptor file or an unknown message type is a compile error
+        let Ok(descriptor) = get_message_descriptor(path, &message_type_str) else {
+            return Err(function::Error::InvalidArgument {
+                keyword: "desc_file",
+                value: desc_file.clone(),
+                error: "unable to load the message type from the descriptor file",
+            }
+            .into());
+        };
 
         Ok(EncodeProtoFn {
             descriptor,
